@@ -206,7 +206,8 @@ fn as_index_range(pos_range: &PosRange, text: &str) -> TextRange {
 }
 
 /// Converts a text `Position` to an index.
-/// If the position is out of bounds, the last possible index is returned.
+/// If the column is out of bounds, the end of the line is returned.
+/// If the line is out of bounds, the last possible index is returned.
 ///
 /// Note: This is the insertion index,
 /// so it can be after the last character.
@@ -214,9 +215,9 @@ fn as_index_range(pos_range: &PosRange, text: &str) -> TextRange {
 pub fn get_insertion_index(position: &Position, text: &str) -> usize {
     let mut line = 0;
     let mut character = 0;
-    let pos = (position.line, position.character);
     for (i, c) in text.char_indices() {
-        if (line, character) == pos {
+        // a column behind the end of the line means the end of that line
+        if line == position.line && (character >= position.character || c == '\n') {
             return i;
         }
         if c == '\n' {
